@@ -15,7 +15,8 @@ ALLOWED = {
     ("WriteData", "handle"): {"TempIn(Join(Entry,'tmp'))": "cache", "Mmap(TempIn(Join(Entry,'tmp')))": "cache",
                               "Handle(Bucket(Entry))": "cache", "Handle(Entry)": "dest", "Handle(Content(Entry))": "cache"},
     ("Fallocate", "handle"): {"TempIn(Join(Entry,'tmp'))": "cache"},
-    ("HandleMut", "handle"): {"TempIn(Join(Entry,'tmp'))": "cache"},     # set_len on the private temp file
+    ("HandleMut", "handle"): {"TempIn(Join(Entry,'tmp'))": "cache",      # set_len on the private temp file
+                              "Handle(Bucket(Entry))": "cache", "Handle(Content(Entry))": "cache"},   # (confined; C04 / C03 object to them)
     ("Open", "path"): {"Bucket(Entry)": "cache", "Entry": "dest", "Content(Entry)": "cache"},
     ("RemoveFile", "path"): {"Content(Entry)": "cache", "Bucket(Entry)": "cache", "Entry": "dest"},
     ("RemoveDirAll", "path"): {"Child(Entry)": "cache"},
